@@ -24,7 +24,7 @@ func c08ReceiverCases(tier string, r *rng.R) []runner.Case {
 	}
 	var cs []runner.Case
 	for i := 0; i < n; i++ {
-		sc := recvx.Scenario{Own: "self", DLimit: rng.Pick(r, 1, 2, 2, 3), ZLimit: rng.Pick(r, 1, 2, 3, 3), Consumer: rng.Pick(r, "fast", "fast", "slow"), Bound: 300}
+		sc := recvx.Scenario{Own: "self", DLimit: rng.Pick(r, 1, 2, 2, 3), ZLimit: rng.Pick(r, 1, 2, 3, 3), Consumer: rng.Pick(r, "fast", "fast", "slow"), Bound: 1500}
 		ni := 2 + r.Intn(5)
 		for k := 0; k < ni; k++ {
 			is := recvx.InstSpec{Name: fmt.Sprintf("i%d", k)}
